@@ -84,6 +84,9 @@ type Config struct {
 	Deadline    time.Time
 	Solver      string
 	AltSolver   string // used for queries with hard arithmetic, "" = none
+	KeepGlobals  bool  // keep package-level state across paths (faster, unsound if a path mutates globals)
+	NoAltSession bool  // do not keep an incremental session of the alternate solver
+	AltMs        int   // per-query timeout of that session (default 1000)
 	Verbose     bool
 	SolverLog   string
 	Concrete    []InputRec // when set: run one concrete path serving these inputs
@@ -101,6 +104,7 @@ type Interp struct {
 	oneShots    int
 	oneShotTime time.Duration
 	oneShotWins map[string]int
+	altWins     int
 	prog *ssa.Program
 	ts   *term.Store
 	sol  *smt.Solver
@@ -109,6 +113,11 @@ type Interp struct {
 	sh   *shared
 
 	globals    map[*ssa.Global]*Value
+	pristine       map[*ssa.Global]*Value // deep copy of all globals taken after initialisation
+	pristineInited map[*ssa.Package]bool
+	pristineCells  int
+	initOrder      []*ssa.Package
+	snapshots      int
 	inited     map[*ssa.Package]bool
 	skipInit   map[string]bool
 	consts     map[*ssa.Const]Value
@@ -220,6 +229,25 @@ func (it *Interp) check(q *term.Term, vars map[string]uint8) (smt.Result, map[st
 	if it.cfg.AltSolver != "" && it.hardArith(q) {
 		// division/multiplication by non-trivial operands: incremental back ends stall on these;
 		// go straight to fresh processes, integer-encoding solver first in the portfolio
+		// first an incremental session of the alternate back end that mirrors the path condition
+		if it.cfg.AltSolver == "cvc5-int" && !it.cfg.NoAltSession {
+			if it.alt == nil {
+				ms := it.cfg.AltMs
+				if ms <= 0 {
+					ms = 1000
+				}
+				if a, err := smt.New(it.cfg.AltSolver, ms); err == nil {
+					it.alt = a
+				}
+			}
+			if it.alt != nil {
+				r, m := it.alt.Check(it.pc, q, vars)
+				if r != smt.Unknown {
+					it.altWins++
+					return r, m
+				}
+			}
+		}
 		kinds := []string{it.cfg.AltSolver}
 		for _, k := range it.cfg.OneShotSolvers {
 			if k != it.cfg.AltSolver {
@@ -767,6 +795,7 @@ func (sh *shared) done() {
 // runPath executes the entry function once along prefix.
 func (it *Interp) runPath(entry *ssa.Function, prefix []dec, model map[string]uint64) {
 	it.setModel(model)
+	it.beginPathGlobals()
 	it.pc = it.pc[:0]
 	it.pcSet = map[*term.Term]bool{}
 	it.trace = it.trace[:0]
@@ -840,6 +869,7 @@ func (it *Interp) runPath(entry *ssa.Function, prefix []dec, model map[string]ui
 		it.callSSA(entry, nil, nil)
 	}()
 	it.killAll()
+	it.endPathGlobals()
 	res := it.sh.res
 	res.mu.Lock()
 	defer res.mu.Unlock()
